@@ -15,7 +15,7 @@ the RPC handlers of api_contactrequest.go / api_contact.go in front of it).
   verdict        MonContactApi (TLC on the recorded trace); TraceContactApi = full-spec conformance (drift only:
                  secret-store / opened-group observations live there)
 """
-import json, os
+import json, os, shutil, threading
 import vf
 
 PKG = "."
@@ -66,9 +66,11 @@ def tlc_histories(ctx):
         ("all-1c", 1, LIFE, [], [3], 3 if quick else 4, False, None),
         ("all-2c", 2, LIFE, [], [1] if quick else [2], 2 if quick else 3, False, None),
         ("bad-1c", 1, LIFE, ALLBAD, [0], 1 if quick else 2, False, None),
-        ("walk", 2, LIFE + SWITCH, ALLBAD, [0, 1, 2, 3], 10 if quick else 14, True, 120 if quick else 1500),
-        ("walk-life", 2, LIFE, ["self", "badkey"], [0, 1, 2, 3], 12 if quick else 16, True, 80 if quick else 1000),
+        ("walk", 2, LIFE + SWITCH, ALLBAD, [0, 1, 2, 3], 10 if quick else 14, True, 200 if quick else 600),
+        ("walk-life", 2, LIFE, ["self", "badkey"], [0, 1, 2, 3], 12 if quick else 16, True, 80 if quick else 400),
     ]
+    if quick:       # the malformed pairs are in the model-independent catalogue; one walk family (fewer TLC start-ups)
+        plans = [p for p in plans if p[0] not in ("bad-1c", "walk-life")]
     out = []
     for (name, nc, ops, bad, ys, ml, rst, walks) in plans:
         consts = {"Contacts": tla_set(["c%d" % (i + 1) for i in range(nc)]), "MaxLog": "100", "Ys": tla_set(ys),
@@ -104,7 +106,7 @@ def blind_histories(ctx):
         cat.append(steps)
     walks = []
     alphabet = [(o, "") for o in LIFE] * 4 + [("recv", "noseed")] * 2 + pairs + [(o, "") for o in SWITCH] * 2
-    for _ in range(40 if quick else 500):
+    for _ in range(40 if quick else 300):
         nc = rng.choice([1, 2, 2, 3])
         steps = []
         for c in range(1, nc + 1):     # start somewhere in the lifecycle, not always at U
@@ -120,8 +122,9 @@ def blind_histories(ctx):
 
 
 def batch(plans, per_script, rng):
-    """several histories share one service: history j works on its own fresh contacts and ends with a restart of the
-    service on the same datastores; via alternates between the handler itself and the in-memory gRPC client"""
+    """several histories share one service: history j works on its own fresh contacts; the script ends with a restart of
+    the service on the same datastores (all contacts of all its histories are reported before and after it); every third
+    script goes through the in-memory gRPC client instead of calling the handlers directly"""
     scripts = []
     for (name, nc, hs, exhaustive) in plans:
         if not hs:
@@ -137,9 +140,9 @@ def batch(plans, per_script, rng):
                         st["x"] = st["x"] + j * nc
                     st["res"] = {}
                     steps.append(st)
-                if steps and steps[-1]["act"] != "restart":
-                    steps.append(dict(RESTART))
                 segs.append([start, len(steps)])
+            if steps[-1]["act"] != "restart":
+                steps.append(dict(RESTART))     # every history of the script is compared across this restart
             scripts.append({"id": len(scripts), "cfg": {"contacts": nc * len(segs), "via": "grpc" if len(scripts) % 3 == 2 else "direct",
                                                         "plan": name, "segments": segs}, "steps": steps})
     return scripts
@@ -159,7 +162,8 @@ def classify(sc, rj):
     seg = next((s for s in sc["cfg"].get("segments", []) if s[0] < max(at, 1) <= s[1]), [0, len(sc["steps"])])
     hist = describe({"steps": sc["steps"][seg[0]:]}, max(at, 1) - seg[0])
     if line.get("ev") == "op":
-        app = [a.get("k") + ":" + a.get("sub", "-") for a in line.get("app", [])]
+        app = [a.get("k") + ":" + ("same" if a.get("sub") == line.get("c") else a.get("sub") if a.get("sub") in ("self", "-", "?") else "other")
+               for a in line.get("app", [])]
         key = "api:%s:%s:ok=%s:app=%s" % (line.get("s"), before, line.get("ok"), ",".join(app))
         changed = [k for k in ("st", "rpc") if at >= 1 and evs[at - 1].get(k) != line.get(k)]
         what = ("contact lifecycle broken at the RPC layer (%s): `%s` on %s reported %s before: accepted=%s codes=%s appended=%s "
@@ -183,6 +187,29 @@ def classify(sc, rj):
 def run_part(ctx, replay_obj=None):
     quick = ctx.tier == "quick"
     ov = ctx.overlay({PKG: FILES})
+    ov2 = os.path.join(os.path.dirname(ov), "overlay_contactapi.json")
+    shutil.copy(ov, ov2)                 # ctx.overlay always writes the same file: keep ours apart
+    built = {}
+
+    def build():
+        try:
+            built["bin"] = ctx.go_test_compile(PKG, ov2, name="contactapi")
+        except Exception as e:          # re-raised in the main thread
+            built["err"] = e
+    th = threading.Thread(target=build)
+    th.start()                           # the test binary links while TLC checks the design and generates
+    try:
+        scripts = gen_scripts(ctx, replay_obj)
+    finally:
+        th.join()
+    if "err" in built:
+        raise built["err"]
+    binary = built["bin"]
+    return replay(ctx, binary, scripts)
+
+
+def gen_scripts(ctx, replay_obj):
+    quick = ctx.tier == "quick"
     if replay_obj:
         scripts = [replay_obj["script"]]
     else:
@@ -194,11 +221,52 @@ def run_part(ctx, replay_obj=None):
             scripts = ctx.rng.sample(scripts, min(lim, len(scripts)))
         for i, s in enumerate(scripts):
             s["id"] = i
-    binary = ctx.go_test_compile(PKG, ov, name="contactapi")
-    events = ctx.run_sharded(binary, DRV, PKG, scripts, "contactapi", shards=int(os.environ.get("VERIF_CA_SHARDS", "4")),
+    return scripts
+
+
+def replay(ctx, binary, scripts):
+    events = ctx.run_sharded(binary, DRV, PKG, scripts, "contactapi", shards=int(os.environ.get("VERIF_CA_SHARDS", "4" if ctx.tier == "quick" else "6")),
                              env={"VERIF_WORKERS": os.environ.get("VERIF_CA_WORKERS", "2")}, timeout=2400, chunk=150)
     byid = {s["id"]: s for s in scripts}
-    acc, rejects = vf.validate_blocks(ctx, MON, events, "contactapi", conf=CONF, timeout=1800)
+    # trace validation in groups of services (bounded trace files, up to three TLC runs side by side); the model's
+    # contact universe for the conformance pass covers every script
+    maxc = max(s["cfg"]["contacts"] for s in scripts)
+    conf_consts = {"Contacts": tla_set(["c%d" % (i + 1) for i in range(maxc)])}
+    blocks_all = vf.split_traces(events)
+    G = 100
+    groups = [blocks_all[g:g + G] for g in range(0, len(blocks_all), G)]
+    results = [None] * len(groups)
+    tv0, ct0, nd0 = ctx.traces_validated, ctx.extra.get("conformant_traces", 0), len(ctx.drift)
+
+    def validate(k):
+        flat = []
+        for bid, evs in groups[k]:
+            flat.append({"ev": "reset", "id": bid})
+            flat.extend(evs)
+        try:
+            results[k] = vf.validate_blocks(ctx, MON, flat, "contactapi%d" % k, conf=CONF, conf_consts=conf_consts, timeout=1800)
+        except Exception as e:
+            results[k] = e
+    pending = list(range(len(groups)))
+    running = []
+    while pending or running:
+        while pending and len(running) < 3:
+            t = threading.Thread(target=validate, args=(pending.pop(0),))
+            t.start()
+            running.append(t)
+        running[0].join()
+        running = [t for t in running if t.is_alive()]
+    rejects = []
+    conformant = 0
+    for k, r in enumerate(results):
+        if isinstance(r, Exception):
+            raise r
+        rejects += r[1]
+        nd = sum(1 for d in ctx.drift[nd0:] if d.get("trace") == "contactapi%d" % k)
+        conformant += (r[0] - nd) if nd < 3 else 0
+    # the counters validate_blocks keeps are not thread-safe: set them from the per-group results
+    ctx.traces_validated = tv0 + sum(r[0] for r in results)
+    ctx.extra["conformant_traces"] = ct0 + conformant
     ops = [e for e in events if e.get("ev") == "op"]
     blocks = dict(vf.split_traces(events))
     # measured coverage: (state reported before, request, accepted?) triples met on the real service
